@@ -443,6 +443,18 @@ def run(chk) -> None:
     chk.floor("identity-arithmetic", 3)
 
 
+_assigned_outside: dict = {}
+
+
+def _note_outside(fn: ast.AST, loop: ast.AST) -> None:
+    inside = {id(n) for n in ast.walk(loop)}
+    names = set()
+    for n in ast.walk(fn):
+        if isinstance(n, ast.Name) and isinstance(n.ctx, ast.Store) and id(n) not in inside:
+            names.add(n.id)
+    _assigned_outside[id(loop)] = names
+
+
 def _fcfs_reads(loop: ast.AST) -> dict:
     """Why the iterations of a loop are not independent of each other: {name: the construct that makes an earlier iteration decide a
     later one}.  A guard (if / conditional expression / comprehension filter / while) that reads a container the same loop fills;
@@ -510,7 +522,11 @@ def _fcfs_reads(loop: ast.AST) -> dict:
                 for n in ast.walk(x.test):
                     if isinstance(n, ast.Name) and isinstance(n.ctx, ast.Load):
                         tests_names.setdefault(n.id, x.test)
+        outside = set()  # a value carried from one iteration to the next starts from an assignment before the loop
+        return_read = read
         for name in sorted(stored & set(tests_names)):
+            if name not in _assigned_outside.get(id(loop), set()):
+                continue
             occ = sorted([n for n in order if n.id == name], key=lambda n: (n.lineno, n.col_offset))
             # the first textual occurrence in the body is the read in a test: the value comes from an earlier iteration
             if occ and isinstance(occ[0].ctx, ast.Load) and any(occ[0] is n for n in ast.walk(tests_names[name])):
@@ -599,6 +615,7 @@ def _order_sinks(fi, loop) -> list:
             src = carries(st.iter)
             if not src:
                 continue
+            _note_outside(fi.node, st)
             reads = _fcfs_reads(st)
             if reads:
                 nm = sorted(reads)[0]
@@ -627,6 +644,7 @@ def check_visit_order(chk) -> None:
         fi = repo.func(m, q)
         for loop, ordered, shown in _pair_loops(fi):
             n += 1
+            _note_outside(fi.node, loop)
             read = _fcfs_reads(loop)
             if read and not ordered:
                 name = sorted(read)[0]
